@@ -686,7 +686,9 @@ pub struct ExpCase {
 	pub acct: u8,
 	pub n_others: u8,
 	pub others: Vec<Other>,
-	/// 0 sender (ttl_blocks at init) · 1 recipient (cutoff carried by the received slate) · 2 invoice payer (ttl_blocks when paying)
+	/// 0 sender (ttl_blocks at init) · 1 recipient (cutoff carried by the received slate; k % 3 == 0: W cancels the
+	/// receive and takes the same slate again, so a cancelled and a live entry share the slate id) · 2 invoice payer
+	/// (ttl_blocks when paying) · 3 self-send inside W's active account (a sent and a received entry share the slate id)
 	pub role: u8,
 	/// 0 entry created · 1 counterparty replied · 2 finalized · 3 posted and mined
 	pub stage: u8,
@@ -877,7 +879,7 @@ impl Prop for Expire {
 			0u8..2,
 			prop_oneof![3 => Just(0u8), 1 => Just(1u8)],
 			others_strategy(),
-			0u8..3,
+			prop_oneof![3 => Just(0u8), 3 => Just(1u8), 3 => Just(2u8), 2 => Just(3u8)],
 			prop_oneof![3 => Just(0u8), 1 => Just(1u8), 2 => Just(2u8), 3 => Just(3u8)],
 			any::<bool>(),
 			prop_oneof![1 => Just(0u8), 8 => 1u8..6, 1 => Just(6u8)],
@@ -903,7 +905,7 @@ impl Prop for Expire {
 			.boxed()
 	}
 	fn rule(&self) -> String {
-		"wallet W (account 0/1 active) with 0..3 other pending transactions (own or no cutoffs) and a target transaction in which W is sender (ttl_blocks at init), recipient (cutoff carried by the received slate, honest or edited) or invoice payer (ttl_blocks when paying), cutoff c = creation tip + {none, 0, 1, 2, 3, k} or u64::MAX, advanced to stage created / replied / finalized / mined (optionally seen confirmed); the world is closed and re-opened on copies; paths: direct jump to each tip in {now, c-1, c, c+1} and one chained path refreshing at each of them in turn. Oracle after every refresh at tip T, for every entry of the active account that was pending before it: transaction on chain => never cancelled; cutoff c' != none and T >= c' => entry TxSentCancelled/TxReceivedCancelled, its Locked inputs Unspent with the same value, its Unconfirmed outputs gone; otherwise entry record and its outputs identical. The expected cutoff is the one the harness asked for (creation tip + ttl_blocks), not the stored field. A refresh returning an error is a violation. non-trivial = some judged entry has |T - c'| <= 1 or c' in {none, max}; distinct by case hash; evaluations = judged (entry, refresh) pairs".into()
+		"wallet W (account 0/1 active) with 0..3 other pending transactions (own or no cutoffs) and a target transaction in which W is sender (ttl_blocks at init), recipient (cutoff carried by the received slate, honest or edited; in a third of the cases W cancels the receive and takes the same slate again), invoice payer (ttl_blocks when paying) or both sides of a self-send inside one account, cutoff c = creation tip + {none, 0, 1, 2, 3, k} or u64::MAX, advanced to stage created / replied / finalized / mined (optionally seen confirmed); the world is closed and re-opened on copies; paths: direct jump to each tip in {now, c-1, c, c+1} and one chained path refreshing at each of them in turn. Oracle after every refresh at tip T, for every entry of the active account that was pending before it: transaction on chain => never cancelled; cutoff c' != none and T >= c' => entry TxSentCancelled/TxReceivedCancelled, its Locked inputs Unspent with the same value, its Unconfirmed outputs gone; otherwise entry record and its outputs identical. The expected cutoff is the one the harness asked for (creation tip + ttl_blocks), not the stored field. A refresh returning an error is a violation. non-trivial = some judged entry has |T - c'| <= 1 or c' in {none, max}; distinct by case hash; evaluations = judged (entry, refresh) pairs".into()
 	}
 	fn assumptions(&self) -> Vec<String> {
 		vec!["only entries of the account that is active during the refresh are judged (a refresh updates the active account)".into(), "inputs are selected with minimum_confirmations >= 1, so a released input is an on-chain unspent output and must read Unspent".into()]
@@ -931,7 +933,7 @@ impl Expire {
 		sim.switch_account(W, acct)?;
 		let t0 = sim.world.height();
 		let k = std::cmp::max(4, c.k as u64 % 16);
-		let role = c.role % 3;
+		let role = c.role % 4;
 		let stage = c.stage % 4;
 		let mut args = c.args.clone();
 		if c.no_change {
@@ -939,6 +941,9 @@ impl Expire {
 			args.use_all = true;
 		}
 		let mut args = sanitize(&args, false);
+		if role == 3 {
+			args.proof = false;
+		}
 		if stage < 2 || role != 0 {
 			args.late_lock = false;
 		} else if c.k % 4 != 3 && !args.proof {
@@ -1025,13 +1030,38 @@ impl Expire {
 					if stage >= 2 {
 						lock_raw(&sim, X, &s1)?;
 					}
-					let s2 = receive_raw(&sim, W, &s1).map_err(|e| format!("W receive_tx: {}", e))?;
+					let mut s2 = receive_raw(&sim, W, &s1).map_err(|e| format!("W receive_tx: {}", e))?;
 					entry_exists = true;
+					if c.k % 3 == 0 {
+						// W drops the payment and then accepts the same slate again: one cancelled and one live entry
+						sim.w(W).owner.cancel_tx(sim.w(W).m(), None, Some(s1.id)).map_err(|e| format!("W cancel_tx: {}", e))?;
+						s2 = receive_raw(&sim, W, &s1).map_err(|e| format!("W receive_tx (again): {}", e))?;
+						hist.push("W cancelled the received entry and received the same slate again".into());
+					}
 					if stage >= 2 {
 						let s3 = finalize_raw(&sim, X, &s2, false).map_err(|e| format!("X finalize_tx: {}", e))?;
 						reached = 2;
 						if stage >= 3 {
 							sim.w(X).owner.post_tx(sim.w(X).m(), &s3, true).map_err(|e| format!("post_tx: {}", e))?;
+						}
+					}
+				}
+				3 => {
+					let s1 = init_send_raw(&sim, W, W, &args, b)?;
+					ctx.target = Some(s1.id);
+					ctx.cuts.insert(s1.id, cut);
+					check(&s1, &mut bad_cut);
+					lock_raw(&sim, W, &s1)?;
+					entry_exists = true;
+					if stage >= 1 {
+						let s2 = receive_raw(&sim, W, &s1).map_err(|e| format!("W receive_tx (self): {}", e))?;
+						reached = 1;
+						if stage >= 2 {
+							let s3 = finalize_raw(&sim, W, &s2, false).map_err(|e| format!("W finalize_tx (self): {}", e))?;
+							reached = 2;
+							if stage >= 3 {
+								sim.w(W).owner.post_tx(sim.w(W).m(), &s3, true).map_err(|e| format!("post_tx: {}", e))?;
+							}
 						}
 					}
 				}
